@@ -332,6 +332,7 @@ ASSUME = {}
 TRUSTED_EXTRA = {}
 VARIANTS_OF = {
     "C04": {"quick": ["default", "underscore"], "thorough": ["default", "underscore"]},
+    "C07": {"quick": ["default", "underscore"], "thorough": ["default", "underscore"]},
     "C16": {"quick": ["default", "extra"], "thorough": ["default", "extra"]},
     "C06": {"quick": ["default", "extra"], "thorough": ["default", "extra", "all3"]},
     "C17": {"quick": ["default", "rfc20", "rfc5322", "underscore"],
@@ -605,6 +606,21 @@ def c07(ctx):
                 continue
             if f[1] != "-23":
                 ctx.S("single-label non-reserved domain not rejected as not fully qualified", op="E %d 1 %s" % (m, hx(b"a@" + l)), impl=cl)
+    # the LABELS_ALLOW_UNDERSCORE build: '_' is a letter of the label, never a label boundary - the whole last label is looked up
+    names = [r[0] for r in tbl]
+    pick = names[:: (40 if ctx.tier == "quick" else 5)] + [b"com", b"org", b"museum", b"xn--p1ai"]
+    us = []
+    for n in pick:
+        us += [b"mail.shop_" + n, b"intranet_" + n, b"a.b.my_" + n.upper(), b"x." + n + b"_", b"x._" + n, b"x." + n + b"_" + n, b"a_b." + n]
+    us = list(dict.fromkeys(us))
+    lastcls = ctx.spec(["sT %s" % hx(d.rsplit(b".", 1)[-1]) for d in us])
+    for m in (822, 5321, 5322):
+        c = ctx.K("tld-underscore%d" % m, "underscore", ["E %d 1 %s" % (m, hx(b"a@" + d)) for d in us], nontrivial=lambda op, ln: True)
+        for d, cl, lc in zip(us, c, lastcls):
+            f = fields(cl)
+            want = "-23" if b"." not in d else lc.split(" ")[1]
+            if f[1] != want:
+                ctx.S("LABELS_ALLOW_UNDERSCORE build: the TLD class is not that of the whole last label", op="E %d 1 %s" % (m, hx(b"a@" + d)), variant="underscore", impl=cl, expected_rc=want)
 RULES["C07"] = "distinct (mode, domain) pairs; all 1591 table entries in 3 case variants, every proper prefix, one-character extensions, substitutions, random unlisted labels, 1-4 preceding labels, four modes"
 
 
@@ -1125,6 +1141,23 @@ def c17(ctx):
                     ctx.S("LABELS_ALLOW_UNDERSCORE does not accept exactly the host names valid with '_' as a letter", op="D %s 00" % hx(d), variant=v, impl=b)
             elif a != b:
                 ctx.S("a local-part option changes a host-name decision", op="D %s 00" % hx(d), variant=v, default=a, option=b)
+        if hasus:
+            # addresses whose host name needs the option: valid exactly when it is valid with '_' as a letter, and then classified by
+            # the WHOLE last label (an underscore is not a label boundary), single labels are not fully qualified
+            usm = [(i, e, e.rsplit(b"@", 1)[1]) for i, e in enumerate(mails) if b"@" in e and b"_" in e.rsplit(b"@", 1)[1] and not e.rsplit(b"@", 1)[1].startswith(b"[")]
+            hostok = ctx.spec(["sD 1 %s" % hx(d) for _, _, d in usm])
+            lastcls = ctx.spec(["sT %s" % hx(d.rstrip(b".").rsplit(b".", 1)[-1]) for _, _, d in usm])
+            resv = ctx.spec(["sS %s" % hx(d) for _, _, d in usm])
+            for (i, e, d), ho, lc, rs in zip(usm, hostok, lastcls, resv):
+                if ho != "sD 1" or d.endswith(b"."):
+                    continue
+                want = "8" if rs == "sS 1" else ("-23" if b"." not in d else lc.split(" ")[1])
+                for m in (822, 5321, 5322):
+                    got = fields(r[("E", m, 1)][i])
+                    loc_ok = fields(r[("E", m, 0)][i])[1] == "0"
+                    if loc_ok and got[1] != want:
+                        ctx.S("LABELS_ALLOW_UNDERSCORE build: a host name with '_' is not classified by its whole last label", op="E %d 1 %s" % (m, hx(e)), variant=v,
+                              impl=r[("E", m, 1)][i], expected_rc=want)
         for m in (822, 5321, 5322):
             for t in (0, 1):
                 for e, a, b in zip(mails, base[("E", m, t)], r[("E", m, t)]):
